@@ -55,8 +55,8 @@ MODELLED_NOT_VERIFIED = [
     "C20: reads with reader options (all keywords listed in the coverage rule) are judged by the oracle only; the model is of the default options "
     "(PHYLIP: strict / interleaved are modelled); NEXUS documents containing numbers of 7 or more digits are judged by the oracle only (the model keeps CHARSET "
     "position lists explicitly)",
-    "C20: the budget theorem counts loop rounds of the NEXUS model; the Newick statement machine inside a TREE statement and the tokenizer have their own "
-    "linear bounds (newick_steps_linear is about a ghost counter; token_count_bounded)",
+    "C20: the budget theorem counts loop rounds of the NEXUS model; the Newick statement machine inside a TREE statement has its own real step budget "
+    "(newick_fuel_suffices) and the tokenizer its own bound (token_count_bounded); the three are not added up into one number",
 ]
 EXPLANATION = ("Theorems (Props/C20.lean, about the definitions drv_c20 runs; every loop is a total function): tokenizer_progress, "
                "token_count_bounded; newick_statement_progress, newick_never_internal (loop progress), newick_balanced, newick_inv_initial, "
@@ -73,10 +73,11 @@ EXPLANATION = ("Theorems (Props/C20.lean, about the definitions drv_c20 runs; ev
                "incomplete-last-block class); the refusal KIND of a NEXUS read is now part of the driver's answer and compared with the exception class "
                "(TooManyTaxaError, UndefinedTaxonError, other): reader_loop_error_rule (loop rule with an error side), "
                "translate_without_ntax_never_undefined_taxon (no NTAX declared => TRANSLATE never refuses with UndefinedTaxonError), "
-               "too_many_taxa_needs_ntax; eof_is_parse_error (dichotomy ok / parse error on every text); newick_steps_linear is about a ghost "
-               "counter defined next to run.  Tie A bridges (regenerated Gen/C20Consts.lean = the model's own definitions): block_names_bridge, "
+               "too_many_taxa_needs_ntax; eof_is_parse_error (dichotomy ok / parse error on every text); NEW (wave 3) newick_fuel_suffices: the Newick statement machine run is the fuelled loop runF "
+               "(one unit per machine step, budget 3*|unread input|+3) and never uses the budget up - the ghost counter is gone; matrix_row_stays_in_range: the row "
+               "position handed to readStates is inside rows before and after, so rowLen's getD default is dead in the MATRIX row loop.  Tie A bridges (regenerated Gen/C20Consts.lean = the model's own definitions): block_names_bridge, "
                "end_keywords_bridge, datatype_bridge, phylip_width_bridge, reader_defaults_bridge.  "
-               "Not proved: that rowLen/labelsOf/nsIdx never take their getD defaults inside the NEXUS matrix code (only the row index is guarded); "
+               "Not proved: that labelsOf/nsIdx/ntax/nchar never take their getD defaults inside the NEXUS block code (rowLen's is dead in the row loop: matrix_row_stays_in_range); "
                "the 'no AttributeError/IndexError' clause for the implementation itself is evaluated by the oracle.")
 
 ROUTES = {
